@@ -71,6 +71,10 @@ def write_sites(g, x):
 
 
 def run(ctx):
+    ctx.step(_run, ctx)
+
+
+def _run(ctx):
     F = ctx.F
     shared, view = recv_roots(ctx)
     vetted = [send_entry(ctx)] + shared + view + [ctx.fn1(r'^<multiqueue::MultiQueue<.*> as std::ops::Drop>::drop$'),
